@@ -417,8 +417,15 @@ def write_replay(prop_id, bucket, finding, seed, tier):
     return os.path.relpath(path, VERIF)
 
 
+def _evidence_dir():
+    """evidence/ describes runs against /repo itself; a run pointed at a scratch copy through XFAB_VERIF_REPO (seeded
+    changes, mutants, reverted fixes) writes to evidence-scratch/ (git-ignored) so that it can never overwrite it"""
+    repo = os.path.realpath(os.environ.get("XFAB_VERIF_REPO", "/repo"))
+    return os.path.join(VERIF, "evidence" if repo == os.path.realpath("/repo") else "evidence-scratch")
+
+
 def write_evidence(prop, ctx, tier, seed, wall, n_viol, known_hits, extra=None):
-    os.makedirs(os.path.join(VERIF, "evidence"), exist_ok=True)
+    os.makedirs(_evidence_dir(), exist_ok=True)
     resid = {k: {"worst": (v[0] if v[0] != float("inf") else "nan/inf"), "tol": v[1], "n": v[2]}
              for k, v in sorted(ctx.resid.items())}
     cov = {
@@ -438,7 +445,7 @@ def write_evidence(prop, ctx, tier, seed, wall, n_viol, known_hits, extra=None):
     ev = {"property_id": prop.ID, "tier": tier, "seed": int(seed), "level": "exploration",
           "coverage": cov, "assumptions": list(getattr(prop, "ASSUMPTIONS", [])),
           "wall_s": round(wall, 2), "violations": int(n_viol)}
-    path = os.path.join(VERIF, "evidence", prop.ID + ".json")
+    path = os.path.join(_evidence_dir(), prop.ID + ".json")
     tmp = path + ".tmp"
     with open(tmp, "w") as fh:
         json.dump(ev, fh, indent=1, default=str)
